@@ -265,6 +265,9 @@ def run(ctx, chk, tier="quick"):
     )
     chk.assumptions = ["numpy.interp is the bracketing linear interpolation for increasing xp",
                        "SQLite scans a table whose key is an INTEGER PRIMARY KEY (rowid alias) in key order when the query is a bare single-table SELECT"]
+    from ..sqlrules import conflict_clauses, lossy_functions
+    conflict_clauses(ctx, chk, "C10.O2", ("load",), "load", "rows of the source files with the same timestamp overwrite each other: the loaded series no longer reproduce the source data")
+    lossy_functions(ctx, chk, "C10.O3", ("load",), "load", "a rounded or otherwise altered value is not the source value")
     from .. import sqltypes
     sqltypes.check(ctx, chk, "C10.O2", modules=("load",))
     load = ctx.func("load.load_data")
